@@ -339,8 +339,11 @@ class Run:
               'coverage': cov, 'assumptions': self.assumptions, 'wall_s': round(time.time() - self.t0, 2),
               'violations': len(self.violations) + (1 if (broken and not self.violations) else 0),
               'known_findings_hit': [{'signature': k.get('signature'), 'what': w} for k, w in self.known_hits][:20]}
-        os.makedirs(os.path.join(VERIF, 'evidence'), exist_ok=True)
-        json.dump(ev, open(os.path.join(VERIF, 'evidence', self.prop + '.json'), 'w'), indent=1, default=str)
+        # evidence/ describes runs against /repo itself; a run against another tree (VERIF_REPO: seeded changes,
+        # candidate repairs) leaves it alone and writes under .work/
+        evdir = os.path.join(VERIF, 'evidence') if os.path.realpath(REPO) == '/repo' else os.path.join(WORK, 'evidence-other-tree')
+        os.makedirs(evdir, exist_ok=True)
+        json.dump(ev, open(os.path.join(evdir, self.prop + '.json'), 'w'), indent=1, default=str)
         for l in lines:
             print(l)
         if rc == 0:
